@@ -436,7 +436,7 @@ def run_stop_passes(ctx, rnd):
                 for verdict in (1, 0):
                     sc = {'files': [('t.c', text)], 'rules': [([], verdict)], 'passes': [],
                           'cfg': {'N': rnd.choice([1, 2, 3]), 'no_cache': True, 'silent': silent, 'die': die, 'nogiveup': nogiveup, 'giveup': 300},
-                          'sched': [rnd.randint(0, 7) for _ in range(20)], 'real_pass': cls.__name__}
+                          'sched': [rnd.randint(0, 7) for _ in range(20)], 'real_pass': cls.__name__, 'max_scheduled': 1500}
                     p = cls(None, {})
                     p.max_transforms = None
                     o = driver.run_scenario(sc, ctx.tmp, real_passes=[p])
